@@ -471,6 +471,13 @@ pub struct SessionsRunStats {
     pub cross_format_pairs: u64,
     pub long_sessions: u64,
     pub soak_runs: u64,
+    pub coop_runs: u64,
+    pub coop_threads: u64,
+    pub coop_ops: u64,
+    pub coop_yields: u64,
+    pub coop_switches: u64,
+    pub coop_stalled: u64,
+    pub coop_sites: [u64; 8],
     pub skipped_panicking: u64,
     /// [mask][class of the request parsed next]: how often a session was re-targeted with these
     /// slots still filled (probe; hooked build only)
@@ -814,6 +821,10 @@ pub struct SessionsReport {
 }
 
 pub fn run_sessions(ch: &mut Choices, verbose: bool) -> SessionsReport {
+    // one run in six: several caller threads at the same time, under the cooperative scheduler
+    if ch.chance(1, 6) {
+        return run_concurrent_callers(ch, verbose);
+    }
     let mut log = Log::new(verbose);
     // ---- swarm parameters ----
     let n_clients = ch.range(1, 4);
@@ -826,7 +837,9 @@ pub fn run_sessions(ch: &mut Choices, verbose: bool) -> SessionsReport {
         unordered_bias: ch.choose(3),
         exotic: false,
         stop_den: 3,
+        cjk_names: false,
     };
+    let gp = GenParams { cjk_names: ch.chance(1, 3), ..gp };
     let main_format = ch.choose(3) as usize;
     // "soak" runs: one client hammering ONE stateless entry point a few hundred times with mostly
     // faulty requests, re-asking a few valid probes all along (state that accumulates slowly)
@@ -997,4 +1010,187 @@ pub fn run_sessions(ch: &mut Choices, verbose: bool) -> SessionsReport {
         log.line(|| "note: decision cap reached; remaining decisions were 0".to_string());
     }
     SessionsReport { violations: st.violations, log, stats }
+}
+
+
+// ---------------------------------------------------------------------------------------------
+// concurrent callers (cooperative scheduler, see coop.rs)
+
+/// what one simulated caller thread does
+#[derive(Clone, Debug)]
+enum COp {
+    Call(Entry, usize, usize),
+    Batch(usize, Vec<usize>),
+}
+
+fn exec_cop(op: &COp, reqs: &[Req]) -> Vec<Outcome> {
+    match op {
+        COp::Call(e, f, r) => vec![eval_entry(e, *f, &reqs[*r].text)],
+        COp::Batch(f, ids) => {
+            let texts: Vec<&str> = ids.iter().map(|r| reqs[*r].text.as_str()).collect();
+            match guarded(|| ENUM_FORMATS[*f].parse_multi(texts)) {
+                None => vec![Outcome::panic()],
+                Some(rs) => rs.into_iter().map(|r| enum_outcome(Some(r))).collect(),
+            }
+        }
+    }
+}
+
+/// T caller threads use the parsers at the same time. Exactly one runs at any moment; the
+/// scheduler switches between them at the library's yield points (term parsers, fold). Every
+/// outcome must equal the one the same operation gives when nobody else is around.
+fn run_concurrent_callers(ch: &mut Choices, verbose: bool) -> SessionsReport {
+    let mut log = Log::new(verbose);
+    let mut stats = SessionsRunStats::default();
+    let mut violations: Vec<Violation> = vec![];
+    let n_threads = ch.range(2, 6) as usize;
+    let fault_rate = [0u32, 25, 50][ch.weighted(&[30, 40, 30])];
+    let switch_den = [1u64, 2, 4, 16][ch.weighted(&[20, 30, 30, 20])];
+    let sched_seed = ch.bits() as u64;
+    let gp = GenParams { max_depth: ch.range(1, 3), max_fan: ch.range(1, 3), n_names: ch.range(2, 5), unordered_bias: ch.choose(3), exotic: false, stop_den: 3, cjk_names: ch.chance(1, 3) };
+    let main_format = ch.choose(3) as usize;
+    let mixed = ch.chance(1, 2);
+    let n_reqs = ch.range(3, 10) as usize;
+    stats.coop_runs = 1;
+    stats.coop_threads = n_threads as u64;
+    stats.clients = n_threads as u64;
+    log.line(|| format!("world: {n_threads} caller threads at the same time (cooperative scheduler seed {sched_seed:#x}, switch considered at 1/{switch_den} of the yield points), request fault rate {fault_rate}%"));
+    let generated = guarded(|| {
+        let mut reqs: Vec<Req> = vec![];
+        for _ in 0..n_reqs {
+            let f = if mixed { ch.choose(3) as usize } else { main_format };
+            reqs.push(gen_request(ch, &gp, fault_rate, f));
+        }
+        // deep, well-formed nesting: keeps a thread inside the recursive term parsers for long
+        let n_deep = ch.range(0, 3);
+        for _ in 0..n_deep {
+            let f = if mixed { ch.choose(3) as usize } else { main_format };
+            let c = &ENUM_FORMATS[f].compound;
+            let depth = [20usize, 60, 110, 200][ch.choose(4) as usize];
+            let (open, close) = if ch.chance(1, 2) { c.brackets_set_extension } else { c.brackets_set_intension };
+            let inner = format!("a{}b{}c", c.separator, c.separator);
+            reqs.push(Req { text: format!("{}{inner}{}", open.repeat(depth), close.repeat(depth)), f, faults: vec![] });
+        }
+        reqs
+    });
+    let Some(reqs) = generated else {
+        return SessionsReport { violations, log, stats };
+    };
+    for (i, r) in reqs.iter().enumerate() {
+        stats.requests += 1;
+        if !r.faults.is_empty() {
+            stats.requests_faulty += 1;
+        }
+        for f in &r.faults {
+            stats.faults[*f] += 1;
+        }
+        log.d.str(&r.text);
+        log.line(|| {
+            let shown: String = if r.text.chars().count() > 120 { format!("{}…({} chars)", r.text.chars().take(60).collect::<String>(), r.text.chars().count()) } else { r.text.clone() };
+            format!("request {i} [{}] {:?}", FORMAT_NAMES[r.f], shown)
+        });
+    }
+    // operations per thread
+    let mut queues: Vec<Vec<COp>> = vec![];
+    for _ in 0..n_threads {
+        let n_ops = ch.range(1, 4);
+        let mut q = vec![];
+        for _ in 0..n_ops {
+            let r = ch.choose(reqs.len() as u32) as usize;
+            let f = reqs[r].f;
+            match ch.weighted(&[30, 20, 20, 10, 20]) {
+                0 => q.push(COp::Call(Entry::Lex, f, r)),
+                1 => q.push(COp::Call(Entry::LexFold, f, r)),
+                2 => q.push(COp::Call(Entry::Enum, f, r)),
+                3 => q.push(COp::Call(Entry::LexTerm, f, r)),
+                _ => {
+                    let n = ch.range(1, 4);
+                    let mut ids = vec![r];
+                    for _ in 1..n {
+                        ids.push(ch.choose(reqs.len() as u32) as usize);
+                    }
+                    q.push(COp::Batch(f, ids));
+                }
+            }
+        }
+        stats.coop_ops += q.len() as u64;
+        queues.push(q);
+    }
+    // references: every operation on its own, nobody else around
+    let reference: Vec<Vec<Vec<Outcome>>> = queues.iter().map(|q| q.iter().map(|op| exec_cop(op, &reqs)).collect()).collect();
+    // the concurrent phase
+    let coop = crate::coop::Coop::new(n_threads, sched_seed, switch_den);
+    let bodies: Vec<Box<dyn FnOnce() -> Vec<Vec<Outcome>> + Send + '_>> = queues
+        .iter()
+        .map(|q| {
+            let reqs = &reqs;
+            Box::new(move || q.iter().map(|op| exec_cop(op, reqs)).collect::<Vec<_>>()) as Box<dyn FnOnce() -> Vec<Vec<Outcome>> + Send + '_>
+        })
+        .collect();
+    // switch at the term parsers and the fold (sites 1-3), not inside Hash / PartialEq
+    let results = crate::coop::run_threads(&coop, 0b1110, bodies);
+    let cs = coop.stats();
+    stats.coop_yields = cs.yields;
+    stats.coop_switches = cs.switches;
+    stats.coop_stalled = cs.stalled as u64;
+    stats.coop_sites = cs.sites;
+    stats.ops = stats.coop_ops;
+    log.d.u64(cs.yields);
+    log.d.u64(cs.switches);
+    log.line(|| format!("scheduler: {} yield points passed, {} thread switches, stalled={}", cs.yields, cs.switches, cs.stalled));
+    stats.nontrivial = cs.switches > 0;
+    let mut td = Digest::new();
+    for r in &reqs {
+        td.str(&r.text);
+    }
+    td.u64(sched_seed);
+    td.u64(cs.switches);
+    stats.trace_digest = td.finish();
+    if cs.stalled {
+        // threads ran freely for part of the run: not a deterministic execution, no verdict
+        log.line(|| "run stalled (a thread blocked on something a parked thread holds): no verdict".to_string());
+        return SessionsReport { violations, log, stats };
+    }
+    for (t, q) in queues.iter().enumerate() {
+        let Some(got) = &results[t] else {
+            violations.push(Violation { prop: "C08", kind: "panic-under-concurrent-callers".into(), message: format!("caller thread {t} panicked outside the library calls") });
+            continue;
+        };
+        for (k, op) in q.iter().enumerate() {
+            let (g, r) = (&got[k], &reference[t][k]);
+            stats.observations += g.len() as u64;
+            for o in g {
+                log.d.str(&o.wire());
+            }
+            let what = match op {
+                COp::Call(e, f, r) => format!("{} [{}] {:?}", ENTRY_NAMES[e.idx()], FORMAT_NAMES[*f], reqs[*r].text.chars().take(80).collect::<String>()),
+                COp::Batch(f, ids) => format!("parse_multi [{}] over requests {:?}", FORMAT_NAMES[*f], ids),
+            };
+            log.line(|| format!("thread {t} op {k}: {what} -> {}", g.iter().map(|o| o.show.chars().take(60).collect::<String>()).collect::<Vec<_>>().join(" | ")));
+            let same = g.len() == r.len() && g.iter().zip(r.iter()).all(|(a, b)| a.agrees(b) || a.kind == 1 || b.kind == 1);
+            if !same && violations.is_empty() {
+                let msg = format!(
+                    "with {n_threads} caller threads active, thread {t} got {} for {what}; the same operation alone gives {}",
+                    g.iter().map(|o| o.show.chars().take(80).collect::<String>()).collect::<Vec<_>>().join(" | "),
+                    r.iter().map(|o| o.show.chars().take(80).collect::<String>()).collect::<Vec<_>>().join(" | ")
+                );
+                log.line(|| format!("!! C08 outcome-depends-on-concurrent-callers: {msg}"));
+                violations.push(Violation { prop: "C08", kind: "outcome-depends-on-concurrent-callers".into(), message: msg });
+            }
+        }
+    }
+    // and afterwards, alone again: nothing the concurrent phase did may linger
+    for (t, q) in queues.iter().enumerate() {
+        for (k, op) in q.iter().enumerate() {
+            let again = exec_cop(op, &reqs);
+            let r = &reference[t][k];
+            let same = again.len() == r.len() && again.iter().zip(r.iter()).all(|(a, b)| a.agrees(b) || a.kind == 1 || b.kind == 1);
+            if !same && violations.is_empty() {
+                let msg = format!("after the concurrent phase, thread {t}'s operation {k} repeated alone gives a different outcome than before it");
+                log.line(|| format!("!! C08 same-input-different-outcome: {msg}"));
+                violations.push(Violation { prop: "C08", kind: "same-input-different-outcome".into(), message: msg });
+            }
+        }
+    }
+    SessionsReport { violations, log, stats }
 }
